@@ -25,7 +25,8 @@ type Spec struct {
 	Replay  bool                `json:"replay"`
 	Out     string              `json:"out"`
 	LogKeep int                 `json:"log_keep"`
-	Batch   int                 `json:"batch"` // component worlds: sub-runs per process
+	Batch   int                 `json:"batch"`   // component worlds: sub-runs per process
+	Variant int                 `json:"variant"` // C07: which segmentation of the same workload
 }
 
 // Result is what it answers (file Spec.Out).
@@ -53,6 +54,7 @@ type Result struct {
 	SubNontriv int                 `json:"sub_nontrivial"`     // non-trivial sub-runs
 	Sigs       []string            `json:"sigs,omitempty"`     // signatures of the non-trivial sub-runs
 	SubSeed    uint64              `json:"sub_seed,omitempty"` // seed of the sub-run that violated
+	Digest     string              `json:"digest,omitempty"`   // C07: what the upstreams and clients saw, independent of scheduling
 }
 
 func writeResult(spec *Spec, r *Result) {
@@ -192,7 +194,16 @@ func runWorld(spec *Spec, ch *sim.Choices, res *Result, uniq string) {
 	}
 	switch spec.World {
 	case "proxy":
+		if spec.Variant > 0 {
+			ch.Salt("seg", uint64(spec.Variant))
+			ch.Salt("net", uint64(spec.Variant))
+			ch.Salt("sched", uint64(spec.Variant))
+		}
 		p := worlds.DrawProxyParams(ch, spec.Prop)
+		if spec.Prop == "C07" {
+			p.SegMode = []int{sim.SegWhole, sim.SegRandom, sim.SegSmall, sim.SegOne}[spec.Variant%4]
+			p.LatMode = spec.Variant % 3
+		}
 		w := worlds.NewProxy(s, spec.Prop, p)
 		if err := w.Setup(); err != nil {
 			res.Infra = "setup: " + err.Error()
@@ -203,6 +214,7 @@ func runWorld(spec *Spec, ch *sim.Choices, res *Result, uniq string) {
 			res.Infra = "run ended before the final check: " + s.Stopped
 		}
 		finish(w.Stats, w.Nontrivial(), p)
+		res.Digest = w.Digest()
 	case "lb":
 		s.Horizon = time.Hour
 		w := worlds.RunLB(s, spec.Prop, uniq)
